@@ -31,6 +31,13 @@ LOCAL = {
                           (1.7, 0.25, (-0.4, 0.9, 4.5))]),
              ("Multisphere", (), {"eps": 1e-12, "qeps1": 1e-12,
                                   "qeps2": 1e-14})),
+    # pairs sharing an x or a y coordinate exactly (axis-aligned pairs are
+    # special-cased in the cluster solver's translation matrices)
+    "ms3a": (("spheres", [(1.59, 0.4, (0.3, 0.1, 5.0)),
+                          (1.45, 0.3, (0.3, 1.0, 5.6)),
+                          (1.7, 0.25, (1.2, 0.1, 4.5))]),
+             ("Multisphere", (), {"eps": 1e-12, "qeps1": 1e-12,
+                                  "qeps2": 1e-14})),
     "mielens-below": (("sphere", 1.59, 0.5, (0.17, 0.11, -5.0)),
                       ("MieLens", (0.8,), {})),
     "lens-mie-below": (("sphere", 1.59, 0.5, (0.17, 0.11, -5.0)),
@@ -38,9 +45,9 @@ LOCAL = {
                         {})),
 }
 H.ST.update(LOCAL)
-STS = {"quick": ["mie", "mie2", "ms3t", "tm-spheroid", "mielens",
+STS = {"quick": ["mie", "mie2", "ms3t", "ms3a", "tm-spheroid", "mielens",
                  "mielens-below", "lens-mie", "abmielens", "layered"],
-       "thorough": ["mie", "mie-far", "layered", "mie2", "ms3t",
+       "thorough": ["mie", "mie-far", "layered", "mie2", "ms3t", "ms3a",
                     "tm-spheroid", "tm-cylinder", "tm-sphere", "mielens",
                     "mielens-below", "lens-mie", "lens-mie-below",
                     "abmielens", "mielens2"]}
